@@ -444,7 +444,13 @@ class ScriptGen:
                 attrs += [":weight", str(r.randint(0, 9))]
             else:
                 # attribute values are opaque text for the parser: written flat (no comments inside)
-                attrs += [":pattern", render(r, [a], False)] if not isinstance(a, str) else [":no-pattern", a]
+                if not isinstance(a, str):
+                    attrs += [":pattern", render(r, [a], False)]
+                elif "|" not in a and '"' not in a:
+                    # (a quoted symbol as attribute value loses its bars in pySMT's annotation table: P03)
+                    attrs += [":no-pattern", a]
+                else:
+                    attrs += [":weight", "1"]
         self.tags.add("annotation")
         return ["!", a] + attrs, da
 
@@ -625,7 +631,7 @@ class ScriptGen:
             if k == "rel":
                 ty = r.choice([x for x in (I, R) if (x == I and "int" in th) or (x == R and "real" in th)])
                 n = 2 if r.random() < 0.97 else 3
-                args = [self.gen_num(ty, d, scope) for _ in range(n)]
+                args = [self.gen(ty, d, scope)] + [self.gen_num(ty, d, scope) for _ in range(n - 1)]
                 o = r.choice(["<", "<=", ">", ">="])
                 if n > 2:
                     self.may_reject.add("chain-" + o)
@@ -710,9 +716,11 @@ class ScriptGen:
             ch += ["intdiv"] if r.random() < 0.05 else []
         k = r.choice(ch)
         N = lambda: self.gen_num(t, d, scope)
+        # the first operand is never an Int literal standing for a Real: `(- 0 3)` is an Int term, whatever the context
+        N1 = lambda: self.gen(t, d, scope)
         if k == "+":
             n = r.choice([2, 2, 3, 4]) if r.random() < 0.93 else 1
-            args = [N() for _ in range(n)]
+            args = [N1()] + [N() for _ in range(n - 1)]
             self.tags.add("plus-%d" % n)
             if n < 2:
                 self.nonstd = True
@@ -720,7 +728,7 @@ class ScriptGen:
                 (lambda pe, args=args: (m.Plus([a[1](pe) for a in args]) if len(args) > 1 else args[0][1](pe)))
         if k == "-":
             n = 2 if r.random() < 0.97 else r.choice([3, 4])
-            args = [N() for _ in range(n)]
+            args = [N1()] + [N() for _ in range(n - 1)]
             if n > 2:
                 self.may_reject.add("nary--")
 
@@ -740,13 +748,13 @@ class ScriptGen:
         if k == "*":
             # linear mostly
             n = r.choice([2, 2, 3])
-            args = [N() for _ in range(n)]
+            args = [N1()] + [N() for _ in range(n - 1)]
             if r.random() < 0.7:
                 args[0] = self.lit(t)
             self.tags.add("times-%d" % n)
             return ["*"] + [a[0] for a in args], (lambda pe, args=args: m.Times([a[1](pe) for a in args]))
         if k == "/":
-            a, da = N()
+            a, da = N1()
             if r.random() < 0.7:
                 b, db = self.lit(R)
             else:
@@ -1806,9 +1814,9 @@ KNOWN_SHAPES = [
     ("F15b", "(declare-fun x () Int)(get-value (x foo))", "lone-unknown-name", "get-value"),
     ("F15b", "(maximize foo)", "lone-unknown-name", "maximize"),
     ("F15b", "(define-fun f () String foo)", "lone-unknown-name", "define-fun"),
-    ("F36", "(declare-fun x () Int)(push 1)(declare-fun a () Int)(assert (= a x))(pop 1)(assert (= a x))",
+    ("P01", "(declare-fun x () Int)(push 1)(declare-fun a () Int)(assert (= a x))(pop 1)(assert (= a x))",
      "use-after-pop", "declare-fun"),
-    ("F36", "(declare-fun x () Int)(push 1)(define-fun a () Int 5)(pop 1)(assert (= a x))", "use-after-pop", "define-fun"),
+    ("P01", "(declare-fun x () Int)(push 1)(define-fun a () Int 5)(pop 1)(assert (= a x))", "use-after-pop", "define-fun"),
 ]
 
 
@@ -1880,14 +1888,14 @@ def run(ctx):
     del STD_QUEUE[:]
     run_known_shapes(ctx)
     run_f10_f17(ctx, ig, lines, meta)
-    n = 700 if quick else 12000
+    n = 700 if quick else 6000
     for i in range(n):
-        if ctx.time_left() < (75 if quick else 400):
+        if ctx.time_left() < (75 if quick else 700):
             break
         g = gen_script(ctx.rng)
         text = render_script(ctx.rng, [c[0] for c in g.cmds], fancy=True)
         check_script(ctx, g, text, ig, lines, meta, "generated")
-    run_malformed(ctx, 250 if quick else 4000)
+    run_malformed(ctx, 250 if quick else 2500)
     run_corpus(ctx)
     finish_sem(ctx, lines, meta)
     run_std_oracle(ctx)
